@@ -1,4 +1,5 @@
 """C10 — deny and allow lists behave as one consistent register"""
+from tiecommon import TIE_LOCKS
 import vlib
 from vlib import hx
 
@@ -17,6 +18,8 @@ THEOREMS = [(f"Deny.{n}", P) for n in
             ["allow_tie", "deny_tie", "isDenied_tie", "setNow_tie", "prune_tie", "getDenyList_tie", "getAllowList_tie", "coverage"]]
 
 IDS = ["b1", "b2", "b3", "bk-4", ""]
+THEOREMS = THEOREMS + TIE_LOCKS
+
 
 
 class DenyMode(vlib.Mode):
